@@ -18,3 +18,23 @@ def time_limit(seconds):
     finally:
         signal.alarm(0)
         signal.signal(signal.SIGALRM, old)
+
+
+def jdefault(o):
+    """json.dumps(default=...): a changed implementation may hand back numpy scalars / arrays / sets where
+    the pinned one returned plain Python values; the runner must report that as data, not crash."""
+    try:
+        import numpy as np
+        if isinstance(o, np.bool_):
+            return bool(o)
+        if isinstance(o, np.integer):
+            return int(o)
+        if isinstance(o, np.floating):
+            return float(o)
+        if isinstance(o, np.ndarray):
+            return o.tolist()
+    except ImportError:
+        pass
+    if isinstance(o, (set, frozenset)):
+        return sorted(o, key=repr)
+    return repr(o)
